@@ -82,7 +82,7 @@ func (opts *CompileOptions) Compile(source string) (string, error) {
 		return "", fmt.Errorf("missing tabular queries")
 	}
 
-	subqueries, err := splitQueries(nil, source, expr)
+	subqueries, err := splitQueries(nil, source, scope, expr)
 	if err != nil {
 		return "", err
 	}
@@ -128,7 +128,7 @@ type subquery struct {
 
 // splitQueries appends queries to dst that represent the given tabular expression.
 // The last element of the returned slice will be the query that represents the full expression.
-func splitQueries(dst []*subquery, source string, expr *parser.TabularExpr) ([]*subquery, error) {
+func splitQueries(dst []*subquery, source string, scope map[string]string, expr *parser.TabularExpr) ([]*subquery, error) {
 	dstStart := len(dst)
 	var lastSubquery *subquery
 	for i := 0; i < len(expr.Operators); i++ {
@@ -187,7 +187,7 @@ func splitQueries(dst []*subquery, source string, expr *parser.TabularExpr) ([]*
 			leftSubquery := len(dst) - 1
 
 			var err error
-			dst, err = splitQueries(dst, source, op.Right)
+			dst, err = splitQueries(dst, source, scope, op.Right)
 			if err != nil {
 				return nil, err
 			}
@@ -231,9 +231,10 @@ func splitQueries(dst []*subquery, source string, expr *parser.TabularExpr) ([]*
 			joinSource.WriteString(` AS "` + rightJoinTableAlias + `" ON `)
 			joinCtx := &exprContext{
 				source: source,
+				scope:  scope,
 				mode:   joinExprMode,
 			}
-			if err := writeExpression(joinCtx, joinSource, buildJoinCondition(op.Conditions)); err != nil {
+			if err := writeExpression(joinCtx, joinSource, buildJoinCondition(scope, op.Conditions)); err != nil {
 				return nil, err
 			}
 
@@ -308,24 +309,28 @@ const (
 	rightJoinTableAlias = "$right"
 )
 
-func buildJoinCondition(conds []parser.Expr) parser.Expr {
+func buildJoinCondition(scope map[string]string, conds []parser.Expr) parser.Expr {
 	if len(conds) == 0 {
 		return (&parser.Ident{Name: "true"}).AsQualified()
 	}
-	x := rewriteSimpleJoinCondition(conds[0])
+	x := rewriteSimpleJoinCondition(scope, conds[0])
 	for _, y := range conds[1:] {
 		x = &parser.BinaryExpr{
 			X:  x,
 			Op: parser.TokenAnd,
-			Y:  rewriteSimpleJoinCondition(y),
+			Y:  rewriteSimpleJoinCondition(scope, y),
 		}
 	}
 	return x
 }
 
-func rewriteSimpleJoinCondition(c parser.Expr) parser.Expr {
+func rewriteSimpleJoinCondition(scope map[string]string, c parser.Expr) parser.Expr {
 	id, ok := c.(*parser.QualifiedIdent)
 	if !ok || len(id.Parts) != 1 || id.Parts[0].Quoted || builtinIdentifiers[id.Parts[0].Name] != "" {
+		return c
+	}
+	if _, bound := scope[id.Parts[0].Name]; bound {
+		// A let binding or parameter, not a column name.
 		return c
 	}
 	return &parser.BinaryExpr{
